@@ -1,6 +1,7 @@
 package main
 
 import (
+	"fmt"
 	"go/token"
 	"go/types"
 
@@ -63,18 +64,88 @@ func (x *Exec) tableFor(a Array) (string, bool) {
 }
 
 func (x *Exec) checkFrame(epoch int, what string) {
+	x.checkFrameVis(epoch, what, "true")
+}
+
+// checkFrameVis: vis is a constraint under which the write is observable
+// (the stored value differs from the old one); the model is taken under it
+// when possible so that the native replay can see the change.
+func (x *Exec) checkFrameVis(epoch int, what string, vis string) {
 	if x.monitor && epoch < x.epoch {
 		// obligation failure: a write to memory that existed before verifFreeze
 		x.job.obligations.Add(1)
+		if vis != "true" && x.sol.feasible(vis) == "sat" {
+			x.reportWithModel("frame-write", what, vis)
+			return
+		}
 		x.reportWithModel("frame-write", what, "true")
 	}
+}
+
+// differ: a (sufficient, not necessary) constraint making two values differ.
+func (x *Exec) differ(a, b Val) string {
+	switch av := a.(type) {
+	case Int:
+		if bv, ok := b.(Int); ok && (av.T != "" || bv.T != "") && av.W == bv.W {
+			return "(not (= " + av.term() + " " + bv.term() + "))"
+		}
+	case Bool:
+		if bv, ok := b.(Bool); ok && (av.T != "" || bv.T != "") {
+			return "(not (= " + av.term() + " " + bv.term() + "))"
+		}
+	case Flt:
+		if bv, ok := b.(Flt); ok && (av.T != "" || bv.T != "") {
+			return "(not (fp.eq " + av.term() + " " + bv.term() + "))"
+		}
+	case Iface:
+		bv, ok := b.(Iface)
+		if !ok {
+			return "true"
+		}
+		la, lb := av.L != nil && !av.L.done, bv.L != nil && !bv.L.done
+		switch {
+		case la && lb && av.L != bv.L:
+			return "(not (= " + x.kindVar(av.L) + " " + x.kindVar(bv.L) + "))"
+		case la && !lb:
+			bb := bv
+			if bb.L != nil {
+				bb = bb.L.val
+			}
+			return fmt.Sprintf("(not (= %s (_ bv%d 8)))", x.kindVar(av.L), kindOfIface(bb)&7)
+		case lb && !la:
+			aa := av
+			if aa.L != nil {
+				aa = aa.L.val
+			}
+			return fmt.Sprintf("(not (= %s (_ bv%d 8)))", x.kindVar(bv.L), kindOfIface(aa)&7)
+		case !la && !lb:
+			aa, bb := av, bv
+			if aa.L != nil {
+				aa = aa.L.val
+			}
+			if bb.L != nil {
+				bb = bb.L.val
+			}
+			if aa.T != nil && bb.T != nil && types.Identical(aa.T, bb.T) {
+				return x.differ(aa.V, bb.V)
+			}
+		}
+	}
+	return "true"
 }
 
 func (x *Exec) store(p Ptr, v Val) {
 	if p.Base == nil {
 		x.fail("nil-deref", "")
 	}
-	x.checkFrame(p.Base.Epoch, "")
+	if x.monitor && p.Base.Epoch < x.epoch {
+		vis := "true"
+		func() {
+			defer func() { recover() }()
+			vis = x.differ(x.loadPath(p.Base.V, p.Path), v)
+		}()
+		x.checkFrameVis(p.Base.Epoch, "", vis)
+	}
 	p.Base.V = x.storePath(p.Base.V, p.Path, v)
 }
 
@@ -136,7 +207,15 @@ func (x *Exec) mapUpdate(m *Map, k, v Val) {
 		x.fail("nil-map-write", "")
 	}
 	x.forceKeys(m)
-	x.checkFrame(m.Epoch, "map")
+	if x.monitor && m.Epoch < x.epoch {
+		vis := "true"
+		for i := range m.Keys {
+			if e, ok := x.binop(token.EQL, m.Keys[i], k).(Bool); ok && e.T == "" && e.C {
+				vis = x.differ(m.Vals[i], v)
+			}
+		}
+		x.checkFrameVis(m.Epoch, "map", vis)
+	}
 	for i := range m.Keys {
 		e := x.binop(token.EQL, m.Keys[i], k).(Bool)
 		if e.T == "" {
